@@ -1,6 +1,7 @@
 package consul
 
 import (
+	"fmt"
 	"log"
 	"sort"
 	"strings"
@@ -54,7 +55,15 @@ func (w *ServiceMonitor) Watch(updates chan string) {
 		passing := passingServices(prefixedChecks, w.config.ServiceStatus, w.strict)
 
 		// build the config for the passing services
-		updates <- w.makeConfig(passing)
+		config, err := w.makeConfig(passing)
+		if err != nil {
+			// a config built without the services whose catalog lookup failed
+			// would take their routes out of the routing table: try again
+			log.Printf("[WARN] consul: Error building config. %v", err)
+			time.Sleep(time.Second)
+			continue
+		}
+		updates <- config
 
 		// remember the last state and wait for the next change
 		lastIndex = meta.LastIndex
@@ -69,7 +78,7 @@ type instanceKey struct {
 
 // makeConfig determines which service instances have passing health checks
 // and then finds the ones which have tags with the right prefix to build the config from.
-func (w *ServiceMonitor) makeConfig(checks []*api.HealthCheck) string {
+func (w *ServiceMonitor) makeConfig(checks []*api.HealthCheck) (string, error) {
 	// map service name to list of service passing for which the health check is ok
 	m := map[string]map[instanceKey]bool{}
 	for _, check := range checks {
@@ -89,40 +98,52 @@ func (w *ServiceMonitor) makeConfig(checks []*api.HealthCheck) string {
 		n = 1
 	}
 
+	type result struct {
+		cfg []string
+		err error
+	}
+
 	sem := make(chan int, n)
-	cfgs := make(chan []string, len(m))
+	cfgs := make(chan result, len(m))
 	for name, passing := range m {
 		name, passing := name, passing
 		go func() {
 			sem <- 1
-			cfgs <- w.serviceConfig(name, passing)
+			cfg, err := w.serviceConfig(name, passing)
+			cfgs <- result{cfg, err}
 			<-sem
 		}()
 	}
 
 	var config []string
+	var err error
 	for i := 0; i < len(m); i++ {
-		cfg := <-cfgs
-		config = append(config, cfg...)
+		res := <-cfgs
+		if res.err != nil {
+			err = res.err
+		}
+		config = append(config, res.cfg...)
+	}
+	if err != nil {
+		return "", err
 	}
 
 	// sort config in reverse order to sort most specific config to the top
 	sort.Sort(sort.Reverse(sort.StringSlice(config)))
 
-	return strings.Join(config, "\n")
+	return strings.Join(config, "\n"), nil
 }
 
 // serviceConfig constructs the config for all good instances of a single service.
-func (w *ServiceMonitor) serviceConfig(name string, passing map[instanceKey]bool) (config []string) {
+func (w *ServiceMonitor) serviceConfig(name string, passing map[instanceKey]bool) (config []string, err error) {
 	if name == "" || len(passing) == 0 {
-		return nil
+		return nil, nil
 	}
 
 	q := &api.QueryOptions{RequireConsistent: w.config.RequireConsistent, AllowStale: w.config.AllowStale}
 	svcs, _, err := w.client.Catalog().Service(name, "", q)
 	if err != nil {
-		log.Printf("[WARN] consul: Error getting catalog service %s. %v", name, err)
-		return nil
+		return nil, fmt.Errorf("cannot get catalog service %s: %v", name, err)
 	}
 
 	env := map[string]string{
@@ -144,7 +165,7 @@ func (w *ServiceMonitor) serviceConfig(name string, passing map[instanceKey]bool
 
 		config = append(config, cmds...)
 	}
-	return config
+	return config, nil
 }
 
 // checksWithTagPrefix filters a list of Consul Health Checks to only the Checks with a Tag that begins with the prefix
